@@ -116,11 +116,11 @@ func runC12Lin(p *Plan) *Result {
 	}
 	clients := p.Ops[0].Par
 	type rec struct {
-		in       linIn
-		out      linOut
-		call     int64
-		ret      int64
-		client   int
+		in     linIn
+		out    linOut
+		call   int64
+		ret    int64
+		client int
 	}
 	recs := make([][]rec, len(clients))
 	done := make(chan int, len(clients))
